@@ -242,7 +242,15 @@ def run_hash(spec, res):
     rng.shuffle(order)
     for qi in order[:200]:
         k, parts = queries[qi]
-        if hp2.partition(k, parts) != first[qi]:
+        if qi not in first:
+            continue
+        try:
+            again = hp2.partition(k, parts)
+        except Exception as e:
+            res.violate("partition-raised/replay/%s" % type(e).__name__, "partition() raised %r" % (e,), key=k,
+                        n=len(parts))
+            continue
+        if again != first[qi]:
             res.violate("hashed-depends-on-history", "same key and list gave a different partition later", key=k)
         res.ob("history_independent")
     res.sample = dict(kind="hash", references=sorted(refs) + ["python"], afkak_impl=live_impl,
